@@ -282,6 +282,11 @@ static ASMJIT_FAVOR_SIZE Error validate(InstDB::Mode mode, const BaseInst& inst,
             return make_error(Error::kInvalidPhysId);
           }
 
+          // Vector registers 16..31 can only be named by an EVEX prefix, which the instruction must have.
+          if (ASMJIT_UNLIKELY(reg_id >= 16 && reg_type >= RegType::kVec128 && reg_type <= RegType::kVec512 && !common_info.has_flag(InstDB::InstFlags::kEvex))) {
+            return make_error(Error::kInvalidPhysId);
+          }
+
           reg_mask = Support::bit_mask<RegMask>(reg_id);
           combined_reg_mask |= reg_mask;
         }
